@@ -307,3 +307,142 @@ pub fn record(args: &[String]) -> Value {
 
 #[allow(dead_code)]
 fn _unused(_: frame::Ping) {}
+
+// ------------------------------------------------------------------------------------------------ packets
+use s2n_quic_core::{connection::id::ConnectionInfo, inet::SocketAddress, packet::{number::PacketNumberSpace, ProtectedPacket}};
+
+fn bv(b: &[u8]) -> Value {
+    json!(b.iter().map(|x| *x as u64).collect::<Vec<_>>())
+}
+
+pub fn packet_case(input: &[u8], dcidlen: usize) -> Value {
+    let r = std::panic::catch_unwind(|| {
+        let mut copy = input.to_vec();
+        let total = copy.len();
+        let addr = SocketAddress::default();
+        let info = ConnectionInfo::new(&addr);
+        let buffer = DecoderBufferMut::new(&mut copy);
+        let (packet, rest) = ProtectedPacket::decode(buffer, &info, &dcidlen).ok()?;
+        let len = total - rest.len();
+        let ver = |v: u32| bv(&v.to_be_bytes());
+        let (ty, f) = match &packet {
+            ProtectedPacket::Short(p) => ("short", vec![bv(p.destination_connection_id())]),
+            ProtectedPacket::VersionNegotiation(p) => ("version_negotiation", vec![bv(p.destination_connection_id), bv(p.source_connection_id), json!([p.supported_versions.len() / 4])]),
+            ProtectedPacket::Initial(p) => ("initial", vec![ver(p.version), bv(p.destination_connection_id()), bv(p.source_connection_id()), bv(p.token())]),
+            ProtectedPacket::ZeroRtt(p) => ("zero_rtt", vec![ver(p.version), bv(p.destination_connection_id()), bv(p.source_connection_id())]),
+            ProtectedPacket::Handshake(p) => ("handshake", vec![ver(p.version), bv(p.destination_connection_id()), bv(p.source_connection_id())]),
+            ProtectedPacket::Retry(p) => ("retry", vec![ver(p.version), bv(p.destination_connection_id), bv(p.source_connection_id), bv(p.retry_token), bv(&p.retry_integrity_tag[..])]),
+        };
+        Some((ty.to_string(), f, len))
+    });
+    match r {
+        Err(e) => json!({"ev": "panic", "what": "packet decode", "b": input, "msg": panic_msg(e)}),
+        Ok(None) => json!({"ev": "packet", "b": input, "dcidlen": dcidlen, "ok": false}),
+        Ok(Some((ty, f, len))) => json!({"ev": "packet", "b": input, "dcidlen": dcidlen, "ok": true, "ty": ty, "f": f, "len": len}),
+    }
+}
+
+fn grammar_packet(rng: &mut StdRng, dcidlen: usize) -> Vec<u8> {
+    let mut b = vec![];
+    let cid = |rng: &mut StdRng, b: &mut Vec<u8>| {
+        let n = [0u8, 1, 8, 16, 20, 21, 255][rng.random_range(0..7)];
+        let have = if rng.random_bool(0.9) { n as usize } else { (n as usize).saturating_sub(1) };
+        b.push(n);
+        b.extend((0..have).map(|i| i as u8 ^ 0xa5));
+    };
+    let kind = rng.random_range(0..8);
+    match kind {
+        0 => { b.push(0x40 | rng.random_range(0..0x40u8)); b.extend((0..dcidlen + rng.random_range(0..30usize)).map(|i| i as u8)); }
+        1 => { b.push(rng.random_range(0..0x40u8)); b.extend((0..30).map(|i| i as u8)); }
+        2 => {
+            // version negotiation (any first byte with the long form bit)
+            b.push(0x80 | rng.random_range(0..0x80u8));
+            b.extend([0, 0, 0, 0]);
+            cid(rng, &mut b); cid(rng, &mut b);
+            let n = [0usize, 3, 4, 8, 9][rng.random_range(0..5)];
+            b.extend((0..n).map(|i| i as u8 + 1));
+        }
+        3 | 4 | 5 => {
+            let ty = [0xc0u8, 0xd0, 0xe0][kind - 3];
+            b.push(ty | rng.random_range(0..16u8));
+            b.extend(if rng.random_bool(0.8) { [0u8, 0, 0, 1] } else { [0xfa, 0xce, 0xb0, 0x0c] });
+            cid(rng, &mut b); cid(rng, &mut b);
+            if ty == 0xc0 {
+                let t = [0usize, 1, 20, 70][rng.random_range(0..4)];
+                vi(&mut b, t as u64, rng, false);
+                b.extend((0..t).map(|i| i as u8));
+            }
+            let pl = [0usize, 1, 4, 20, 100][rng.random_range(0..5)];
+            let declared = if rng.random_bool(0.8) { pl as u64 } else { rand_varint(rng) };
+            vi(&mut b, declared, rng, false);
+            b.extend((0..pl).map(|i| i as u8));
+            // sometimes a second (coalesced) packet follows
+            if rng.random_bool(0.3) { b.extend([0x41, 1, 2, 3, 4, 5, 6, 7, 8, 9, 10, 11, 12, 13, 14, 15, 16, 17, 18, 19, 20, 21, 22, 23, 24, 25]); }
+        }
+        6 => {
+            b.push(0xf0 | rng.random_range(0..16u8));
+            b.extend([0u8, 0, 0, 1]);
+            cid(rng, &mut b); cid(rng, &mut b);
+            let n = [0usize, 15, 16, 17, 40][rng.random_range(0..5)];
+            b.extend((0..n).map(|i| i as u8));
+        }
+        _ => { let n = rng.random_range(0..60); b.extend((0..n).map(|_| rng.random::<u8>())); }
+    }
+    b
+}
+
+/// packets-record <seed> <count> <out>: packet headers and packet-number truncation / expansion
+pub fn record_packets(args: &[String]) -> Value {
+    silence_panics();
+    let seed: u64 = args[0].parse().unwrap();
+    let count: usize = args[1].parse().unwrap();
+    let mut out = TraceOut::new(&args[2]);
+    let mut rng = StdRng::seed_from_u64(seed ^ 0x9ac4e7);
+    let space = PacketNumberSpace::ApplicationData;
+    let pn = |x: u64| space.new_packet_number(VarInt::new(x).unwrap());
+    let (mut ok, mut bad) = (0u64, 0u64);
+    for k in 0..count {
+        let dcidlen = [0usize, 4, 8, 16, 20, 21][rng.random_range(0..6)];
+        let mut input = grammar_packet(&mut rng, dcidlen);
+        if k % 3 != 0 { input = mutate(&mut rng, input); }
+        if input.len() > 400 { input.truncate(400); }
+        let c = packet_case(&input, dcidlen);
+        if c["ok"] == json!(true) { ok += 1 } else { bad += 1 }
+        out.emit(c);
+        // packet numbers: the sender's length choice and the receiver's expansion.  Values sit near 0, in the middle
+        // (translated by a multiple of 2^32, which is a multiple of every window) and right below 2^62.
+        let bytes = rng.random_range(1..4usize);
+        let win = 1u64 << (8 * bytes);
+        let (base, low, top): (u64, bool, i64) = match rng.random_range(0..3) {
+            0 => (0, true, -1),
+            1 => ((rng.random_range(1..1u64 << 28)) << 32, false, -1),
+            _ => ((1 << 62) - (1 << 30), false, 1 << 30),
+        };
+        let largest_small = if low && rng.random_bool(0.5) { rng.random_range(0..win) } else { rng.random_range(0..(1u64 << 30) - 1) };
+        let trunc = match rng.random_range(0..4) { 0 => 0, 1 => win - 1, 2 => (largest_small + 1) % win, _ => rng.random_range(0..win) };
+        // build a truncated number of exactly `bytes` bytes through the public decoder of the length type
+        let len = pn(win / 2 - 1).truncate(pn(0)).unwrap().len();
+        if len.bytesize() == bytes {
+            let be = trunc.to_be_bytes();
+            if let Ok((t, _)) = len.decode_truncated_packet_number(s2n_codec::DecoderBuffer::new(&be[8 - bytes..])) {
+                let r = std::panic::catch_unwind(|| t.expand(pn(base + largest_small)).as_u64());
+                match r {
+                    Ok(got) => out.emit(json!({"ev": "pn_dec", "largest": largest_small, "trunc": trunc, "bits": 8 * bytes, "low": low, "top": top,
+                                               "got": (got as i128 - base as i128) as i64})),
+                    Err(e) => out.emit(json!({"ev": "panic", "what": "pn expand", "msg": panic_msg(e)})),
+                }
+            }
+        }
+        // sender side
+        let la = rng.random_range(0..(1u64 << 30));
+        let dist = match rng.random_range(0..6) { 0 => 1, 1 => 127, 2 => 128, 3 => 32767, 4 => 32768, _ => rng.random_range(1..(1u64 << 24)) };
+        let full = la + dist;
+        if base + full >= 1 << 62 { continue; }
+        if let Some(t) = pn(base + full).truncate(pn(base + la)) {
+            let back = t.expand(pn(base + full - 1)).as_u64();
+            out.emit(json!({"ev": "pn_enc", "pn": full, "largest": la, "len": t.len().bytesize(), "back": back == base + full}));
+        }
+    }
+    let n = out.finish();
+    json!({"events": n, "runs": count, "accepted_by_decoder": ok, "rejected_by_decoder": bad})
+}
